@@ -1,6 +1,10 @@
 /-
   Properties/C09.lean — union branch choice is deterministic, honours hints, and follows the
   documented rule. Lemmas: Proofs/Choose.lean, Proofs/Validate.lean.
+  `c09_closure_branch`: the closure clause at the level of the branch — the (name, value) pair the reader reports for a
+  named branch selects, written back, exactly that branch; `c09_closure_union_level`: hence identical bytes for the union
+  whenever the value inside re-encodes identically (the induction over the whole datum is checked on the implementation,
+  every reader option, and not proved).
   Determinism "as a function of schema and datum alone" is by construction here (a pure function);
   that the implementation has no hidden state is property C17.
 -/
@@ -73,3 +77,73 @@ example : ((Spec.choose 4 [] false false
      .record "B" [.mk "x" (.prim .int false none) none [], .mk "z" (.prim .int false none) (some (.int 1)) []] []]
     (.dict [(.str "x", .int 1), (.str "z", .int 2)])).map (·.1)) = some 1 := by
   decide +kernel
+
+/-! ### closure (branch level) -/
+
+theorem findIdx_first {α : Type} (p : α → Bool) : ∀ (xs : List α) (i : Nat) (x : α), xs[i]? = some x → p x = true →
+    (∀ j, j < i → ∀ y, xs[j]? = some y → p y = false) → xs.findIdx p = i := by
+  intro xs
+  induction xs with
+  | nil => intro i x h; simp at h
+  | cons a as ih =>
+    intro i x h hp hbefore
+    cases i with
+    | zero =>
+      simp at h; subst h
+      simp [List.findIdx_cons, hp]
+    | succ i =>
+      have ha : p a = false := hbefore 0 (by omega) a (by simp)
+      simp only [List.findIdx_cons, ha, cond_false]
+      have := ih i x (by simpa using h) hp (fun j hj y hy => hbefore (j+1) (by omega) y (by simpa using hy))
+      omega
+
+/-- **C09 (closure, branch level).** With named-type reporting on, the value `read_union` reports for a named branch —
+    the pair (name, value) — written back under the same union selects exactly the branch it was read from, provided no
+    earlier branch goes by the same name (the specification forbids two named types of one name in a union).  For a
+    branch given by name the reported name is the definition's, which the table of named schemas keeps equal to the
+    reference (`hdef`). -/
+theorem c09_closure_branch (fuel : Nat) (env : Env) (o : WOpts) (ro : ROpts) (bs : List Schema) (i : Nat) (b : Schema) (result : Val)
+    (hb : bs[i]? = some b)
+    (hnamed : b.isNamedDef = true ∨ ∃ n d, b = .ref n ∧ env.get? n = some d ∧ d.defName? = some n)
+    (hro : ro.returnNamedType = true) (hov : (ro.returnNamedTypeOverride && (unionCounts bs).1 == 1) = false)
+    (hfirst : ∀ j, j < i → ∀ b', bs[j]? = some b' → b'.hintName ≠ b.hintName)
+    (hdt : o.disableTuple = false) :
+    wrapUnionResult env ro bs b result = .ok (.tuple [.str b.hintName, result]) ∧
+    choose fuel env o bs (.tuple [.str b.hintName, result]) = .ok (i, result) := by
+  have hlt : i < bs.length := by
+    rcases Nat.lt_or_ge i bs.length with h | h
+    · exact h
+    · have : bs[i]? = none := List.getElem?_eq_none h
+      rw [this] at hb; cases hb
+  constructor
+  · unfold wrapUnionResult
+    simp only [hov, Bool.false_eq_true, if_false, hro, Bool.true_and]
+    rcases hnamed with hn | ⟨n, d, rfl, hget, hdn⟩
+    · cases b <;> simp [Schema.isNamedDef] at hn <;> simp [Schema.hintName, pure, Except.pure]
+    · simp [hget, hdn, Schema.hintName, Schema.typeName, pure, Except.pure]
+  · have hidx : (bs.findIdx fun b' => (Val.str b.hintName).strEq b'.hintName) = i := by
+      refine findIdx_first _ bs i b hb ?_ ?_
+      · simp [Val.strEq]
+      · intro j hj y hy
+        have := hfirst j hj y hy
+        simp only [Val.strEq, beq_eq_false_iff_ne, ne_eq]
+        exact fun h => this h.symm
+    have := (c09_hint fuel env o bs (.str b.hintName) result hdt).1
+    simp only [hidx] at this
+    exact this hlt
+
+/-- **C09 (closure, one union level).** If a datum was written to a union under branch `i` — a named branch, the first of its
+    name — and what the reader reports for the value inside re-encodes under that branch to the same bytes (`hinner`: the
+    clause for the value one level down), then the (name, value) pair the reader reports for the union re-encodes to the
+    identical bytes of the union. -/
+theorem c09_closure_union_level (fuel : Nat) (env : Env) (o : WOpts) (ro : ROpts) (bs : List Schema) (v v' r : Val) (i : Nat) (b : Schema)
+    (hch : choose fuel env o bs v = .ok (i, v')) (hb : bs[i]? = some b)
+    (hnamed : b.isNamedDef = true ∨ ∃ n d, b = .ref n ∧ env.get? n = some d ∧ d.defName? = some n)
+    (hro : ro.returnNamedType = true) (hov : (ro.returnNamedTypeOverride && (unionCounts bs).1 == 1) = false)
+    (hfirst : ∀ j, j < i → ∀ b', bs[j]? = some b' → b'.hintName ≠ b.hintName) (hdt : o.disableTuple = false)
+    (hinner : writeData fuel env o b r = writeData fuel env o b v') :
+    ∃ reported, wrapUnionResult env ro bs b r = .ok reported ∧
+      writeData (fuel+1) env o (.union bs) reported = writeData (fuel+1) env o (.union bs) v := by
+  obtain ⟨h1, h2⟩ := c09_closure_branch fuel env o ro bs i b r hb hnamed hro hov hfirst hdt
+  refine ⟨_, h1, ?_⟩
+  simp only [writeData, h2, hch, hb, hinner]
